@@ -23,11 +23,11 @@ CHECKS = {
  "C09": dict(engine="E2 seqmodel", technique=SEQ, design="§4 C09",
    text="Every return value of random (1-400 calls) and of all depth<=4/5 single-threaded histories over all handle families is compared with the reference model; exhaustive only within the stated depth and alphabet."),
  "C12": dict(engine="E1 detsched", technique=SCHED, design="§4 C12",
-   text="Traffic scenarios whose threads clone/drop/convert handles between operations, checked with the delivery, order and capacity oracles."),
+   text="Traffic scenarios whose threads (and, on futures queues, Sink/Stream tasks) clone/drop/convert handles between operations, checked with the delivery, order, capacity and hang-up oracles and every stuck state."),
  "C13": dict(engine="E2 seqmodel + E1 detsched", technique=SEQ + "; " + SCHED, design="§4 C13",
    text="Sequential histories that drop every receiver in generated orders and then send through every sender flavour, plus concurrent scenarios racing a parking Sink task with the last receiver's drop."),
  "C15": dict(engine="E2 seqmodel + E1 detsched", technique=SEQ + "; " + SCHED, design="§4 C15",
-   text="Futures handles: model comparison of sequential Sink/Stream histories with a per-call step bound (no waiting inside poll/start_send), and concurrent traffic through tasks on a deterministic executor."),
+   text="Futures handles: model comparison of sequential Sink/Stream histories with a per-call step bound (no waiting inside poll/start_send) and the notification duty that NotReady implies, and concurrent traffic through tasks on a deterministic executor."),
 }
 
 CHECKS.update({
@@ -46,7 +46,7 @@ CHECKS.update({
  "C17": dict(engine="E3 memacct", technique="property-based testing with a counting global allocator as oracle (generated teardown histories and churn loops)", design="§4 C17",
    text="Bytes attributed to the queue must return to the baseline after every generated teardown, and must plateau across 2c..4c generated churn cycles."),
  "C18": dict(engine="E1 detsched", technique=SCHED + "; solo-run step bound", design="§4 C18",
-   text="At generated points all other threads are frozen wherever they are and one try operation runs alone; it must return within a fixed number of its own steps and never block."),
+   text="At generated points all other threads are frozen wherever they are and one try operation runs alone; it must return within a fixed number of its own steps and never block. In addition every try operation of every generated execution may execute at most that many scheduling points in a row without another thread changing shared state."),
  "C19": dict(engine="E5 typeprobe", technique="generated compile probes: one rustc program per (handle type x payload class x closure class x trait), exhaustive over the finite table", design="§4 C19",
    text="The compiler decides each cell of the Send/Sync table; the expected table is derived from the statement only.",
    note="trusted base: rustc's auto-trait checking; one representative type per payload/closure class"),
